@@ -306,13 +306,25 @@ func runRun(t *toks, out *bufio.Writer) {
 		case <-time.After(5 * time.Second):
 			code = 3
 			cancel()
-			<-ch
+			// give a well-behaved Run one more second to notice the cancellation; a Run that ignores it is abandoned
+			select {
+			case <-ch:
+			case <-time.After(time.Second):
+				code = 6
+			}
 		}
 		el := time.Since(t0)
 		if cancelMode == 2 && el > time.Duration(ms+1000)*time.Millisecond {
 			late = 1
 		}
+		if cancelMode == 3 {
+			cancel() // the caller's usual `defer cancel()`: must not disturb a later Run on the same CPU
+		}
 		fmt.Fprintf(out, "%s.%d.res %d %d\n", pc.id, r, code, late)
+		if code == 6 {
+			// Run is still executing on this CPU: its state cannot be read or reused
+			break
+		}
 		printState(out, fmt.Sprintf("%s.%d", pc.id, r), cpu, w)
 	}
 	// goroutines that outlive Run although its context is still live are leaks (the parent contexts are cancelled only now)
@@ -477,7 +489,6 @@ func runInject(t *toks, out *bufio.Writer) {
 			} else {
 				settled = 0
 			}
-			c.HALT = false
 		}
 		return c, w, steps, false
 	}
@@ -517,6 +528,149 @@ func runInject(t *toks, out *bufio.Writer) {
 	fmt.Fprintf(out, "%s ok %d\n", pc.id, n+1)
 }
 
+type rng64 struct{ s uint64 }
+
+func (r *rng64) next() uint64 {
+	r.s += 0x9E3779B97F4A7C15
+	z := r.s
+	z = (z ^ (z >> 30)) * 0xBF58476D1CE4E5B9
+	z = (z ^ (z >> 27)) * 0x94D049BB133111EB
+	return z ^ (z >> 31)
+}
+func (r *rng64) below(n int) int { return int(r.next() % uint64(n)) }
+
+// fuzz id seed n [only]: n random scenarios (arbitrary byte strings as programs, arbitrary States incl. any IM, the
+// bundled memory / port types incl. short ones, nil IO, arbitrary Interrupt values); each under recover() and a watchdog.
+func runFuzz(t *toks, out *bufio.Writer) {
+	id := t.s()
+	seed, n := t.n(), t.n()
+	only := -1
+	if t.i < len(t.t) {
+		only = t.n()
+	}
+	cur = nil
+	edges := []int{0, 1, 2, 3, 0x7FFF, 0x8000, 0xFFFC, 0xFFFD, 0xFFFE, 0xFFFF}
+	for i := 0; i < n; i++ {
+		r := &rng64{uint64(seed)*1000003 + uint64(i)}
+		if only >= 0 && i != only {
+			continue
+		}
+		var mem z80.Memory
+		kind := r.below(4)
+		length := []int{0, 1, 2, 255, 256, 4096, 65535, 65536}[r.below(8)]
+		prefixes := []uint8{0xDD, 0xFD, 0xCB, 0xED, 0xDD, 0xFD, 0x76, 0x00, 0xFF, 0xC7}
+		fillByte := func(a int) uint8 {
+			if r.below(3) == 0 {
+				return prefixes[r.below(len(prefixes))]
+			}
+			return uint8(r.below(256))
+		}
+		switch kind {
+		case 0, 1:
+			dm := make(z80.DumbMemory, length)
+			for a := range dm {
+				dm[a] = fillByte(a)
+			}
+			mem = dm
+		case 2:
+			mm := z80.MapMemory{}
+			for k := 0; k < 200; k++ {
+				mm[uint16(r.below(65536))] = fillByte(0)
+			}
+			for _, a := range []int{0xFFFD, 0xFFFE, 0xFFFF, 0, 1} {
+				mm[uint16(a)] = prefixes[r.below(6)]
+			}
+			mem = mm
+		default:
+			dm := make(z80.DumbMemory, 65536)
+			for a := range dm {
+				dm[a] = fillByte(a)
+			}
+			mem = dm
+		}
+		cpu := &z80.CPU{Memory: mem}
+		pick16 := func() uint16 {
+			if r.below(2) == 0 {
+				return uint16(edges[r.below(len(edges))])
+			}
+			return uint16(r.below(65536))
+		}
+		cpu.AF.SetU16(pick16())
+		cpu.BC.SetU16(pick16())
+		cpu.DE.SetU16(pick16())
+		cpu.HL.SetU16(pick16())
+		cpu.IX, cpu.IY, cpu.SP, cpu.PC = pick16(), pick16(), pick16(), pick16()
+		cpu.IR.SetU16(pick16())
+		cpu.IFF1, cpu.IFF2 = r.below(2) == 0, r.below(2) == 0
+		cpu.IM = []int{0, 1, 2, 3, -1, 7, -1 << 31, 1 << 30, 0, 2}[r.below(10)]
+		switch r.below(3) {
+		case 1:
+			cpu.IO = make(z80.DumbIO, []int{0, 1, 16, 256}[r.below(4)])
+		case 2:
+			cpu.IO = make(z80.DumbIO, 256)
+		}
+		mkIrq := func() *z80.Interrupt {
+			ty := []int{0, 1, 1, 1, 2, -1, 99}[r.below(7)]
+			dl := []int{0, 0, 1, 1, 2, 3, 4, 300, 70000}[r.below(9)]
+			var d []uint8
+			if dl > 0 || r.below(2) == 0 {
+				d = make([]uint8, dl)
+				for k := range d {
+					d[k] = uint8(r.below(256))
+				}
+				if dl > 0 && r.below(2) == 0 {
+					d[0] = []uint8{0xC7, 0xFF, 0xCD, 0xC3, 0x3E, 0xDD, 0xED, 0xCB}[r.below(8)]
+				}
+			}
+			return &z80.Interrupt{Type: z80.InterruptType(ty), Data: d}
+		}
+		done := make(chan string, 1)
+		go func() {
+			defer func() {
+				if e := recover(); e != nil {
+					done <- fmt.Sprintf("panic:%v", e)
+				}
+			}()
+			for k := 0; k < 40; k++ {
+				if r.below(5) == 0 {
+					cpu.Interrupt = mkIrq()
+				}
+				cpu.Step()
+			}
+			// Run returns once the program halts: jump to a HALT
+			if dm, ok := mem.(z80.DumbMemory); ok && len(dm) == 65536 {
+				dm[0x4000] = 0x76
+				cpu.PC = 0x4000
+				cpu.Interrupt = nil
+				if r.below(2) == 0 {
+					// a request that can never be accepted must not keep Run from returning at the HALT
+					cpu.IFF1 = false
+					cpu.Interrupt = &z80.Interrupt{Type: z80.IMType, Data: []uint8{0xFF}}
+				}
+				ctx, cancel := context.WithTimeout(context.Background(), time.Second)
+				err := cpu.Run(ctx)
+				cancel()
+				if err != nil {
+					done <- fmt.Sprintf("run_did_not_halt:%v", err)
+					return
+				}
+			}
+			done <- "ok"
+		}()
+		res := ""
+		select {
+		case res = <-done:
+		case <-time.After(4 * time.Second):
+			res = "hang"
+		}
+		if res != "ok" {
+			fmt.Fprintf(out, "%s fail scenario=%d memkind=%d len=%d im=%d pc=%d %s\n", id, i, kind, length, cpu.IM, cpu.PC, strings.ReplaceAll(res, " ", "_"))
+			return
+		}
+	}
+	fmt.Fprintf(out, "%s ok %d\n", id, n)
+}
+
 func mkgpr(a, f int) z80.GPR {
 	return z80.GPR{AF: z80.Register{Hi: uint8(a), Lo: uint8(f)}, BC: z80.Register{Hi: 1, Lo: 2},
 		DE: z80.Register{Hi: 3, Lo: 4}, HL: z80.Register{Hi: 5, Lo: 6}}
@@ -548,6 +702,8 @@ func main() {
 			runTwin(t, out)
 		case "inject":
 			runInject(t, out)
+		case "fuzz":
+			runFuzz(t, out)
 		case "par":
 			runPar(t, out)
 		case "getflag":
@@ -572,6 +728,9 @@ func main() {
 			r := z80.Register{Hi: uint8(h), Lo: uint8(l)}
 			r.SetU16(uint16(v))
 			fmt.Fprintf(out, "%s %d %d %d\n", id, r.Hi, r.Lo, r.U16())
+		case "consts":
+			id := t.s()
+			fmt.Fprintf(out, "%s %d %d %d %d %d %d %d %d\n", id, z80.FlagC, z80.FlagN, z80.FlagPV, z80.Flag3, z80.FlagH, z80.Flag5, z80.FlagZ, z80.FlagS)
 		case "#":
 		default:
 			fmt.Fprintf(os.Stderr, "unknown case kind %s\n", f[0])
